@@ -63,11 +63,10 @@ func evalGlobal(pk *packages.Package, name string) (*Lit, error) {
 	l, err := evalExpr(pk, e)
 	if err != nil {
 		// an initialiser computed by a pure nullary closure: fold it (ssaeval.go)
-		if call, ok := ast.Unparen(e).(*ast.CallExpr); ok && len(call.Args) == 0 {
-			if _, isLit := ast.Unparen(call.Fun).(*ast.FuncLit); isLit {
-				if fl := foldedGlobal(pk, obj); fl != nil {
-					return fl, nil
-				}
+		// (or by a function of the module applied to constants)
+		if call, ok := ast.Unparen(e).(*ast.CallExpr); ok && !pk.TypesInfo.Types[call.Fun].IsType() {
+			if fl := foldedGlobal(pk, obj); fl != nil {
+				l, err = fl, nil
 			}
 		}
 	}
